@@ -112,8 +112,9 @@ FUNCS = {f.__name__: f for f in [inc, add2, neg, ident, kw, mklist, const7, rais
                                  raise_type, raise_zero, raise_attr, raise_index, len]}
 FUNC_NAME = {id(f): n for n, f in FUNCS.items()}
 RAISERS = ['raise_value', 'raise_key', 'raise_type', 'raise_zero', 'raise_attr', 'raise_index']
-METHODS = {'str': ['upper', 'count', 'index', 'startswith'], 'list': ['count', 'index'],
-           'tuple': ['count', 'index'], 'dict': ['get']}
+METHODS = {'str': ['upper', 'count', 'index', 'startswith'], 'list': ['count', 'index', 'pop', 'append'],
+           'tuple': ['count', 'index'], 'dict': ['get', 'pop', 'setdefault']}
+MUTATORS = ('pop', 'append', 'setdefault')
 
 # ---------------------------------------------------------------- PV codec
 
@@ -308,6 +309,13 @@ def run_impl(case):
     from glom import GlomError, PathAccessError
     out = {k: v for k, v in case.items() if k not in ('impl', 'direct')}
     target = dec(case['target'])
+    if case.get('prebuild'):
+        # a twin expression (equal-but-differently-typed literal at one position) written first in
+        # the same process: what `T…` records for the second must not depend on the first
+        try:
+            glom.glom(dec(case['target']), build_t(case['prebuild']['T']))
+        except Exception:
+            pass
     spec = build_t(case['expr']['T'])
     try:
         res = glom.glom(target, spec)
@@ -467,11 +475,15 @@ class Gen:
         opts = []
         if type(cur) is dict:
             if cur:
-                opts += ['key'] * 6
-            opts += ['get', 'dor']
+                opts += ['key'] * 6 + ['dpop']
+            opts += ['get', 'dor', 'dsetdefault']
         elif type(cur) in (list, tuple):
             if cur:
                 opts += ['idx'] * 4 + ['scount', 'sindex']
+                if type(cur) is list:
+                    opts += ['lpop'] * 2
+            if type(cur) is list:
+                opts += ['lappend']
             opts += ['slice'] * 2 + ['sadd', 'smul']
         elif type(cur) is str:
             if cur:
@@ -492,6 +504,12 @@ class Gen:
         if not opts:
             return None
         o = r.choice(opts)
+        if o in ('lpop', 'dpop'):
+            return ['__getattr__', lit('pop')]
+        if o == 'lappend':
+            return ['__getattr__', lit('append')]
+        if o == 'dsetdefault':
+            return ['__getattr__', lit('setdefault')]
         if o == 'key':
             k = r.choice(list(cur))
             return ['__getitem__', self.arg(lambda v: type(v) is type(k) and v == k, k)]
@@ -604,6 +622,22 @@ class Gen:
         slf, name = m.__self__, m.__name__
         if name == 'upper':
             return {'call': {'args': [], 'kwargs': []}}
+        if name == 'pop' and type(slf) is list:
+            if not slf or r.random() < 0.6:
+                return {'call': {'args': [], 'kwargs': []}}
+            return {'call': {'args': [self.arg(lambda v: is_int(v) and -len(slf) <= v < len(slf),
+                                               r.randrange(len(slf)))], 'kwargs': []}}
+        if name == 'append':
+            return {'call': {'args': [self.arg(lambda v: True, gen_scalar(r))], 'kwargs': []}}
+        if name == 'pop' and type(slf) is dict:
+            ks = [k for k in slf if type(k) in (int, str)] or ['zz']
+            k = r.choice(ks)
+            if r.random() < 0.3:
+                return {'call': {'args': [lit(r.choice([k, 'zz'])), lit(r.choice(INTS))], 'kwargs': []}}
+            return {'call': {'args': [self.arg(lambda v: type(v) is type(k) and v == k, k)], 'kwargs': []}}
+        if name == 'setdefault':
+            ks = [k for k in slf if type(k) in (int, str)] + ['zz', 'new']
+            return {'call': {'args': [lit(r.choice(ks)), self.arg(is_int, r.choice(INTS))], 'kwargs': []}}
         if name in ('count', 'index') and type(slf) is str:
             sub = r.choice([slf[:1], slf[1:2], 'a', 'zz', '']) if name == 'count' else \
                 r.choice([slf[:1], slf[1:3], slf[:1], 'zz'])
@@ -736,10 +770,86 @@ def grow(r, target, n, nested_p=0.3, prefer=None):
             return steps, vals, g, False
         if too_big(nxt):
             break
+        if st[0] == '__call__' and getattr(cur, '__name__', None) in MUTATORS:
+            g.src = sources(target)       # the target changed: later nested arguments see the new state
         steps.append(st)
         vals.append(nxt)
         cur = nxt
     return steps, vals, g, True
+
+
+TWINS = {0: [0.0, False], 1: [1.0, True], 2: [2.0], True: [1, 1.0], False: [0, 0.0]}
+
+
+def twin_case(r, tj, steps):
+    """the same chain with one int / bool literal replaced by an equal value of another type;
+    the original is written first (`prebuild`) in the same process"""
+    idx = [i for i, (d, a) in enumerate(steps) if d not in UNARY and isinstance(a, dict) and 'lit' in a
+           and isinstance(a['lit'], dict) and (('i' in a['lit'] and a['lit']['i'] in (0, 1, 2)) or 'b' in a['lit'])]
+    if not idx:
+        return None
+    i = r.choice(idx)
+    v = dec(steps[i][1]['lit'])
+    w = r.choice(TWINS[v])
+    twin = steps[:i] + [[steps[i][0], lit(w)]] + steps[i + 1:]
+    return {'target': tj, 'prebuild': {'T': steps}, 'expr': {'T': twin}}
+
+
+def twin_templates(r):
+    """T['n'] + 1 then T['n'] + 1.0, T['l'][1] then T['l'][1.0] / T['l'][True], …"""
+    target = {'n': r.choice([7, 2, -3, 10]), 's': 'v=%s', 'l': ['a', 'b', 'c'], 'f': 2.5,
+              't': (4, 5, 6), 'd': {1: 'one', 0: 'zero', 2: 'two'}}
+    key, d, v = r.choice([('n', '__add__', 1), ('n', '__sub__', 1), ('n', '__mul__', 2), ('n', '__floordiv__', 2),
+                          ('n', '__truediv__', 2), ('n', '__mod__', 2), ('n', '__pow__', 2), ('n', '__and__', 1),
+                          ('n', '__or__', 0), ('n', '__xor__', 1), ('s', '__mod__', 1), ('l', '__getitem__', 1),
+                          ('l', '__getitem__', 0), ('l', '__mul__', 2), ('t', '__getitem__', 2), ('t', '__mul__', 1),
+                          ('f', '__mul__', 0), ('f', '__add__', 1), ('d', '__getitem__', 1), ('d', '__getitem__', 0)])
+    tail = r.choice([[], [], [['__neg__', lit(None)]], [['__add__', lit(1)]]]) if key in ('n', 'f') else []
+    first = [['__getitem__', lit(key)], [d, lit(v)]] + tail
+    second = [['__getitem__', lit(key)], [d, lit(r.choice(TWINS[v]))]] + tail
+    if r.random() < 0.3:
+        first, second = second, first
+    return {'target': enc(target), 'prebuild': {'T': first}, 'expr': {'T': second}}
+
+
+def stateful_templates(r):
+    """a call that changes the target, then an operation whose nested T argument reads the same
+    object: the argument must see the state *after* the call (T['l'].pop() + T['l'][-1])"""
+    n = r.randint(3, 5)
+    target = {'l': [r.choice(INTS[:11]) for _ in range(n)], 'd': {'a': r.choice(INTS), 'b': r.choice(INTS)},
+              'n': r.choice(INTS)}
+    k = r.random()
+    call0 = {'call': {'args': [], 'kwargs': []}}
+    if k < 0.4:
+        steps = [['__getitem__', lit('l')], ['__getattr__', lit('pop')], ['__call__', call0],
+                 [r.choice(['__add__', '__sub__', '__mul__']),
+                  {'T': [['__getitem__', lit('l')], ['__getitem__', lit(r.choice([-1, 0, n - 2]))]]}]]
+    elif k < 0.6:
+        steps = [['__getitem__', lit('l')], ['__getattr__', lit('pop')],
+                 ['__call__', {'call': {'args': [lit(0)], 'kwargs': []}}],
+                 ['__add__', {'T': [['__getitem__', lit('len')],
+                                    ['__call__', {'call': {'args': [{'T': [['__getitem__', lit('l')]]}], 'kwargs': []}}]]}]]
+        target['len'] = len
+    elif k < 0.8:
+        steps = [['__getitem__', lit('d')], ['__getattr__', lit('pop')],
+                 ['__call__', {'call': {'args': [lit('a')], 'kwargs': []}}],
+                 ['__add__', {'T': [['__getitem__', lit('d')], ['__getattr__', lit('get')],
+                                    ['__call__', {'call': {'args': [lit('a'), lit(1000)], 'kwargs': []}}]]}]]
+    else:
+        steps = [['__getitem__', lit('d')], ['__getattr__', lit('setdefault')],
+                 ['__call__', {'call': {'args': [lit('new'), {'T': [['__getitem__', lit('n')]]}], 'kwargs': []}}],
+                 ['__mul__', {'T': [['__getitem__', lit('d')], ['__getitem__', lit('new')]]}]]
+    return {'target': enc(target), 'expr': {'T': steps}}
+
+
+def failing_nested_step(r, g):
+    """a later operation whose nested T argument fails as well (never reached)"""
+    inner = r.choice([[['__getitem__', lit('nope')]], [['__getattr__', lit('zz')]],
+                      [['__getitem__', lit('n')], ['__getitem__', lit('y')]],
+                      [['__floordiv__', lit(0)]]])
+    if r.random() < 0.3:
+        return ['__call__', {'call': {'args': [{'T': inner}], 'kwargs': []}}]
+    return [r.choice(['__getitem__', '__add__', '__mul__', '__sub__']), {'T': inner}]
 
 
 def generate(rng, tier, scale, **focus):
@@ -748,18 +858,31 @@ def generate(rng, tier, scale, **focus):
     prefer = focus.get('prefer')
     for i in range(n):
         target = gen_target(rng)
+        tj = enc(target)                 # before the chain is grown: calls may change the target
         want = rng.randint(1, maxlen)
         steps, vals, g, clean = grow(rng, target, want, prefer=prefer)
         mode = rng.random()
         if clean and mode < 0.30:
-            # one-edit mutation: the step at position k is replaced by a failing one
+            # one-edit mutation: the step at position k is replaced by a failing one …
             k = rng.randrange(len(steps) + 1)
             bad = g.bad_step(vals[k])
             steps = steps[:k] + [bad] + steps[k + 1:]
+            if rng.random() < 0.4:
+                # … and a later operation has a nested T argument that would fail too
+                j = rng.randint(k + 1, len(steps))
+                steps = steps[:j] + [failing_nested_step(rng, g)] + steps[j:]
         elif clean and mode < 0.36 and steps:
             # an operation appended beyond the end of a valid chain
             steps = steps + [g.bad_step(vals[-1])]
-        yield {'target': enc(target), 'expr': {'T': steps}}
+        elif clean and mode < 0.46:
+            tw = twin_case(rng, tj, steps)
+            if tw is not None:
+                yield tw
+                continue
+        yield {'target': tj, 'expr': {'T': steps}}
+    for i in range(n // 12):
+        yield twin_templates(rng)
+        yield stateful_templates(rng)
     if tier == 'thorough' and not focus:
         yield from exhaustive()
 
@@ -806,7 +929,10 @@ def corpus():
 
 
 def key(case):
-    return {'target': case['target'], 'expr': case['expr']}
+    k = {'target': case['target'], 'expr': case['expr']}
+    if case.get('prebuild'):
+        k['prebuild'] = case['prebuild']
+    return k
 
 
 def has_nested(e):
